@@ -17,8 +17,9 @@ SeqToSet(s) == {s[i] : i \in 1..Len(s)}
 \*   viator     - through Tor.create_onion_service while the configuration is loading, next to another request
 \*   history    - "removed": a service from the same caller-held key was run and removed on this connection before;
 \*                "refused": Tor refused the first attempt to create a service from that key
+\*                "single": the earlier service (run and removed, through the same Tor object) was a single-hop one
 \*                (with via_tor both the earlier and the present creation go through one Tor object's create_onion_service)
-Histories == {"removed", "refused"}
+Histories == {"removed", "refused", "single"}
 
 \* req.key: [kind |-> "none" | "discard" | "bare" | "prefixed" | "crlf", type, body]
 KeySpec(req) ==
